@@ -161,13 +161,25 @@ class Spec:
             if st.has(ch):
                 return st.get(ch)
             return R(ch)
-        if isinstance(expr, (ast.BoolOp, ast.Compare)) or (isinstance(expr, ast.UnaryOp) and isinstance(expr.op, ast.Not)) or (
-            isinstance(expr, ast.Call) and isinstance(expr.func, ast.Name) and expr.func.id in ("isinstance", "callable", "bool")
-        ):
+        if self._bool_typed(expr):
             t = self.truth(expr, st, depth)
             if t is not None:
                 return C(t)
         return UNKNOWN
+
+    @staticmethod
+    def _bool_typed(expr) -> bool:
+        """expressions whose *value* is the bool of their truth: comparisons, not, isinstance/callable/bool calls and and/or of such
+        (`a or b` of arbitrary operands evaluates to one of the operands, not to a bool)"""
+        if isinstance(expr, ast.Compare) or (isinstance(expr, ast.UnaryOp) and isinstance(expr.op, ast.Not)):
+            return True
+        if isinstance(expr, ast.Call) and isinstance(expr.func, ast.Name) and expr.func.id in ("isinstance", "callable", "bool", "hasattr", "issubclass"):
+            return True
+        if isinstance(expr, ast.Constant) and isinstance(expr.value, bool):
+            return True
+        if isinstance(expr, ast.BoolOp):
+            return all(Spec._bool_typed(v) for v in expr.values)
+        return False
 
     def truth(self, expr, st: State, depth: int):
         """Three-valued truth of an expression: True / False / None (unknown)."""
@@ -251,6 +263,13 @@ class Spec:
         if isinstance(target, ast.Name):
             return st.set(f"{depth}:{target.id}", v)
         if isinstance(target, (ast.Tuple, ast.List)):
+            if (isinstance(value_expr, (ast.Tuple, ast.List)) and len(value_expr.elts) == len(target.elts) and (value is None or value == UNKNOWN)
+                    and not any(isinstance(x, ast.Starred) for x in list(value_expr.elts) + list(target.elts))):
+                # a, b = x, y: element-wise, the right-hand side evaluated in the old state
+                vals = [self.value(e, st, depth) for e in value_expr.elts]
+                for t, e, v in zip(target.elts, value_expr.elts, vals):
+                    st = self.bind(t, e, st, depth, value=v)
+                return st
             for e in target.elts:
                 st = self.bind(e, None, st, depth, value=UNKNOWN)
             return st
@@ -628,15 +647,20 @@ class Engine:
                         r = sp.bind(target, None, r, depth, value=v)
                     out.normal.add(r)
                 continue
-            if isinstance(node, ast.Assign) and isinstance(node.value, ast.IfExp) and len(node.targets) == 1:
+            if isinstance(node, (ast.Assign, ast.AnnAssign)) and isinstance(node.value, ast.IfExp) and (isinstance(node, ast.AnnAssign) or len(node.targets) == 1):
+                # `x = a if c else b` is analysed like `if c: x = a` / `else: x = b`: the chosen arm is labelled as an ordinary assignment
                 t, f, ab = self.cond(node.value.test, {s}, depth)
                 out.merge_abrupt(ab)
-                for s1 in t:
-                    s1 = s1.emit(*sp.events(node.value.body, s1))
-                    out.normal.add(sp.bind(node.targets[0], node.value.body, s1, depth))
-                for s1 in f:
-                    s1 = s1.emit(*sp.events(node.value.orelse, s1))
-                    out.normal.add(sp.bind(node.targets[0], node.value.orelse, s1, depth))
+                for arm, sts in ((node.value.body, t), (node.value.orelse, f)):
+                    if isinstance(node, ast.Assign):
+                        synth = ast.Assign(targets=node.targets, value=arm, type_comment=None)
+                    else:
+                        synth = ast.AnnAssign(target=node.target, annotation=node.annotation, value=arm, simple=node.simple)
+                    ast.copy_location(synth, node)
+                    synth._parent = getattr(node, "_parent", None)
+                    for s1 in sts:
+                        s1 = s1.emit(*sp.events(synth, s1))
+                        out.normal.add(sp.effect(synth, s1, depth))
                 continue
             s = s.emit(*sp.events(node, s))
             s = sp.effect(node, s, depth)
